@@ -24,6 +24,8 @@ func init() {
 	vHarnesses["vH_C06_audio_time_pph1800"] = vH_C06_audio_time_pph1800
 	vHarnesses["vH_C06_audio_nr_pph1800"] = vH_C06_audio_nr_pph1800
 	vHarnesses["vH_C06_audio_time_pph450"] = vH_C06_audio_time_pph450
+	vHarnesses["vH_C06_number_pph1800_snr"] = vH_C06_number_pph1800_snr
+	vHarnesses["vH_C06_nr_pph1800_snr"] = vH_C06_nr_pph1800_snr
 }
 
 // audio adaptation set: segment boundaries do not coincide with period boundaries
@@ -31,19 +33,24 @@ func vH_C06_audio_time_pph1800() { vC06a(vAsset_testpic_2s(), "V300", 1, 1800, 5
 func vH_C06_audio_nr_pph1800()   { vC06a(vAsset_testpic_2s(), "V300", 2, 1800, 5, false, false, "A48") }
 func vH_C06_audio_time_pph450()  { vC06a(vAsset_testpic_2s(), "V300", 1, 450, 9, false, false, "A48") }
 
+func vH_C06_number_pph1800_snr() {
+	vC06n(vAsset_testpic_2s(), "V300", 0, 1800, 3, false, false, "", true)
+}
+func vH_C06_nr_pph1800_snr() { vC06n(vAsset_testpic_2s(), "V300", 2, 1800, 3, false, false, "", true) }
+
 func vH_C06_time_pph1800_start() { vC06s(vAsset_testpic_2s(), "V300", 1, 1800, 3, false, true) }
 
-func vH_C06_time_pph1800()   { vC06(vAsset_testpic_2s(), "V300", 1, 1800, 5, false) }
-func vH_C06_time_pph450()    { vC06(vAsset_testpic_2s(), "V300", 1, 450, 9, false) }
-func vH_C06_time_pph60()     { vC06(vAsset_testpic_2s(), "V300", 1, 60, 5, false) }
-func vH_C06_nr_pph1800()     { vC06(vAsset_testpic_2s(), "V300", 2, 1800, 5, false) }
-func vH_C06_nr_pph450()      { vC06(vAsset_testpic_2s(), "V300", 2, 450, 9, false) }
-func vH_C06_number_pph1800() { vC06(vAsset_testpic_2s(), "V300", 0, 1800, 5, false) }
-func vH_C06_number_pph7()    { vC06(vAsset_testpic_2s(), "V300", 0, 7, 5, false) }
-func vH_C06_reject_pph3600() { vC06(vAsset_testpic_2s(), "V300", 1, 3600, 3, false) }
-func vH_C06_reject_pph11()   { vC06(vAsset_testpic_2s(), "V300", 1, 11, 3, false) }
+func vH_C06_time_pph1800()    { vC06(vAsset_testpic_2s(), "V300", 1, 1800, 5, false) }
+func vH_C06_time_pph450()     { vC06(vAsset_testpic_2s(), "V300", 1, 450, 9, false) }
+func vH_C06_time_pph60()      { vC06(vAsset_testpic_2s(), "V300", 1, 60, 5, false) }
+func vH_C06_nr_pph1800()      { vC06(vAsset_testpic_2s(), "V300", 2, 1800, 5, false) }
+func vH_C06_nr_pph450()       { vC06(vAsset_testpic_2s(), "V300", 2, 450, 9, false) }
+func vH_C06_number_pph1800()  { vC06(vAsset_testpic_2s(), "V300", 0, 1800, 5, false) }
+func vH_C06_number_pph7()     { vC06(vAsset_testpic_2s(), "V300", 0, 7, 5, false) }
+func vH_C06_reject_pph3600()  { vC06(vAsset_testpic_2s(), "V300", 1, 3600, 3, false) }
+func vH_C06_reject_pph11()    { vC06(vAsset_testpic_2s(), "V300", 1, 11, 3, false) }
 func vH_C06_time_alt_pph300() { vC06(vAsset_testpic_alt_seg_dur_stl(), "V300", 1, 300, 13, false) }
-func vH_C06_cont_flag()      { vC06(vAsset_testpic_2s(), "V300", 1, 1800, 3, true) }
+func vH_C06_cont_flag()       { vC06(vAsset_testpic_2s(), "V300", 1, 1800, 3, true) }
 
 // vStubPeriodClone replaces Period.Clone (reflection-based deep copy) under symbolic execution:
 // it copies what splitPeriod reads and writes.
@@ -76,6 +83,11 @@ func vC06s(a *asset, repID string, mode, pph, maxTsbd int, cont, withStart bool)
 
 // audioID != "": the adaptation set under test is the audio one (timeline derived from the video reference).
 func vC06a(a *asset, repID string, mode, pph, maxTsbd int, cont, withStart bool, audioID string) {
+	vC06n(a, repID, mode, pph, maxTsbd, cont, withStart, audioID, false)
+}
+
+// withStartNr: the configured start number (snr_N) is arbitrary.
+func vC06n(a *asset, repID string, mode, pph, maxTsbd int, cont, withStart bool, audioID string, withStartNr bool) {
 	rep := a.Reps[repID]
 	ts := rep.MediaTimescale
 	if audioID != "" {
@@ -88,7 +100,11 @@ func vC06a(a *asset, repID string, mode, pph, maxTsbd int, cont, withStart bool,
 		startS = vInt("startS", 0, 1<<32-1)
 	}
 	now := 1000*startS + rel
-	cfg := vCfg(startS, 0, tsbd)
+	startNr := 0
+	if withStartNr {
+		startNr = vInt("startNr", 0, 1<<20)
+	}
+	cfg := vCfg(startS, startNr, tsbd)
 	cfg.PeriodsPerHour = Ptr(pph)
 	cfg.ContMultiPeriodFlag = cont
 	switch mode {
@@ -168,12 +184,13 @@ func vC06a(a *asset, repID string, mode, pph, maxTsbd int, cont, withStart bool,
 		vAssert("C06.continuity-signalled-iff-requested", hasCont == cont)
 		if mode == 0 {
 			// $Number$: startNumber_k * duration = PTO_k
-			vAssert("C06.number.startNumber-matches-pto", int(*st.StartNumber)*int(*st.Duration) == k*periodDur*ts)
+			// the first segment of period k has the number it has in the single-period presentation (startNumber + index)
+			vAssert("C06.number.startNumber-matches-pto", (int(*st.StartNumber)-startNr)*int(*st.Duration) == k*periodDur*ts)
 			continue
 		}
 		pse := segEntries{entries: st.SegmentTimeline.S}
 		if mode == 2 && st.StartNumber != nil {
-			pse.startNr = int(*st.StartNumber)
+			pse.startNr = int(*st.StartNumber) - startNr
 		}
 		list := vExpand(pse)
 		for j := range list {
